@@ -147,6 +147,26 @@ func (w *World) do(st Step) bool {
 		if len(f) == 0 {
 			return false
 		}
+		// The gateway issues requests while ranging over Go maps (queries of
+		// a query event, resources of a system reset, subscriptions of a
+		// token change): arrival order is random. Pick in a canonical order
+		// so that a schedule means the same in every execution.
+		sort.SliceStable(f, func(i, j int) bool {
+			a, b := f[i], f[j]
+			if a.typ != b.typ {
+				return a.typ < b.typ
+			}
+			if a.sname != b.sname {
+				return a.sname < b.sname
+			}
+			if a.query != b.query {
+				return a.query < b.query
+			}
+			if a.csym != b.csym {
+				return a.csym < b.csym
+			}
+			return a.k < b.k
+		})
 		out := st.Out
 		if out == "" {
 			out = "ok"
